@@ -77,6 +77,8 @@ class Wire(object):
 
         def _call(_):
             self.tape.append((type(self.target).__name__, methname, tuple(a for a in args if isinstance(a, int))))
+            if self.plan.get("hook"):
+                self.plan["hook"](methname)
             if methname == "read_encrypted" and self.plan.get("fail_at"):
                 self.plan["reads"] = self.plan.get("reads", 0) + 1
                 if self.plan["reads"] == self.plan["fail_at"] and not self.plan.get("after"):
@@ -404,6 +406,84 @@ def one_file(ctx, rig, twin, fi, terms, info):
                 pos += ln
         if pos != size:
             fail("failover-transfer-gap", "fail-over at read %d: the requests %s do not cover the file" % (jf, got), case={"cut": jf})
+        rig.g.delete_shares(cap_d)
+
+    # ---- two or three clients upload the same file through the one helper: in the same reactor turn, or the
+    # later ones while the first is contacting the helper / handing over its reader / in the middle of the transfer
+    from twisted.internet import defer
+    from allmydata.immutable import upload as _upload
+    rc = ctx.rng("concurrent", fi)
+    variants = ["same-turn", rc.choice(["at-upload_chk", "at-upload", "at-read"])]
+    if ctx.tier == "thorough" or ctx.search:
+        variants = ["same-turn", "at-upload_chk", "at-upload", "at-read"]
+    for variant in variants:
+        nclients = rc.choice([2, 2, 3])
+        tapes = [[] for _ in range(nclients)]
+        fetched_before = rig.helper._counters["chk_upload_helper.fetched_bytes"]
+        at_read = rc.randrange(1, nchunks + 1)
+
+        def concurrent():
+            ds = []
+
+            def start(i, plan):
+                rig.up._helper = Wire(rig.helper, tapes[i], plan)
+                ds.append(rig.up.upload(_upload.Data(data, convergence=conv)))
+            started = []
+            done = defer.Deferred()
+
+            def gather():
+                if not started:
+                    started.append(True)
+                    defer.DeferredList(list(ds), consumeErrors=True).chainDeferred(done)
+
+            def hook(methname):
+                trigger = {"at-upload_chk": methname == "upload_chk", "at-upload": methname == "upload",
+                           "at-read": methname == "read_encrypted" and len(reads(tapes[0])) == at_read}.get(variant, False)
+                if trigger and not started:
+                    for i in range(1, nclients):
+                        start(i, {})
+                    gather()
+            if variant == "same-turn":
+                for i in range(nclients):
+                    start(i, {})
+                gather()
+            else:
+                start(0, {"hook": hook})
+
+                def first_over(r):          # the trigger never came (the first upload ended before): report what there is
+                    gather()
+                    return r
+                ds[0].addBoth(first_over)
+            return done
+        res = rig.g.run(concurrent)
+        rig.up._helper = None
+        ctx.case(("concurrent", variant, nclients, size, chunk, at_read), kind="concurrent-" + variant)
+        ccase = {"variant": variant, "clients": nclients, "at_read": at_read}
+        caps = [x.get_uri() for ok, x in res if ok]
+        errs = [str(x.value)[:120] if hasattr(x, "value") else str(x)[:120] for ok, x in res if not ok]
+        if len(caps) != len(res) or any(c != cap_d for c in caps):
+            fail("concurrent-uploads-through-one-helper:wrong-result",
+                 "%d clients uploading the same file through one helper (%s): caps %s, errors %s" % (len(res), variant, len(caps), errs),
+                 case=ccase, expected="every client gets the direct upload's cap", observed={"caps": [c.decode() for c in caps], "errors": errs})
+        fetched = rig.helper._counters["chk_upload_helper.fetched_bytes"] - fetched_before
+        if fetched > size:
+            fail("concurrent-uploads-through-one-helper:ciphertext-fetched-more-than-once",
+                 "%d clients, one helper (%s): the helper fetched %d bytes of a %d byte file" % (len(res), variant, fetched, size),
+                 case=ccase, expected="at most %d" % size, observed=fetched)
+        sh = rig.shares(cap_d)
+        if sh != shares_d:
+            fail("helper-shares-differ-from-direct-shares:concurrent",
+                 "%d clients, one helper (%s): share payloads on the grid differ from the direct upload's" % (len(res), variant),
+                 case=ccase, observed={"present": sorted(sh)})
+        dl = rig.g.run(rig.g.download(cap_d), outcome=True)
+        if dl.status != "ok" or dl.value != data:
+            fail("concurrent-uploads-through-one-helper:file-not-downloadable",
+                 "%d clients, one helper (%s): downloading through the direct upload's cap afterwards: %s %s" % (len(res), variant, dl.status, dl.error),
+                 case=ccase, expected="the file", observed=str(dl.error))
+        clean("concurrent-" + variant)
+        if rig.helper._active_uploads:
+            fail("concurrent-uploads-through-one-helper:upload-left-active", "the helper still lists an active upload", case=ccase)
+            rig.helper._active_uploads.clear()
         rig.g.delete_shares(cap_d)
 
     # ---- already present: no ciphertext moves
